@@ -39,6 +39,8 @@ type TimedCase struct {
 	Clients int         `json:"clients"`
 	// ZeroWait: WaitCount must be 0 at the end
 	ZeroWait bool `json:"zw,omitempty"`
+	// SigSuffix is appended to the signature of every violation of this case (case families with listed findings)
+	SigSuffix string `json:"sfx,omitempty"`
 }
 
 type TimedRun struct {
@@ -276,6 +278,10 @@ func evalTimed(prefix string) func(c *Ctx, cs EnumCase) EnumResult {
 		if err != "" {
 			return EnumResult{Err: err}
 		}
-		return EnumResult{Viol: judgeTimed(prefix, &tc, run), Obs: timedObs(run), Nontrivial: len(run.Events) >= 2}
+		vs := judgeTimed(prefix, &tc, run)
+		for i := range vs {
+			vs[i].Sig += tc.SigSuffix
+		}
+		return EnumResult{Viol: vs, Obs: timedObs(run), Nontrivial: len(run.Events) >= 2}
 	}
 }
